@@ -9,6 +9,7 @@ bad=0
 for id in "${ids[@]}"; do
   d=seeded/$id; prop=$(python3 -c "import json;print(json.load(open('$d/meta.json'))['property'])")
   verdict=$(python3 -c "import json;print(json.load(open('$d/meta.json'))['check_verdict'])")
+  if [ "$verdict" = "neutralised-by-fix" ]; then echo "$id $prop skipped (a later fix: commit removed the defect this change relied on; see meta.json)"; continue; fi
   P=$d/patch.diff; [ -f $d/patch.rebased.diff ] && P=$d/patch.rebased.diff
   if [ -n "$(git -C $REPO status --porcelain)" ]; then echo "$id: repository copy not clean, stopping"; exit 2; fi
   # (no fuzzy fallback: `patch --fuzz` once moved a hunk into another branch and silently changed the mutant;
